@@ -523,6 +523,24 @@ fn run_once(line: &str, dir: &PathBuf, quiet: Duration) -> String {
                     note = "!resume-not-acknowledged".into();
                 }
             }
+            b'Q' => {
+                // pause()/resume() calls issued back to back, alternating between the two handles: every command is in the server's
+                // command channel before the first acknowledgement is awaited
+                let hs = [&run.handle, &run.handle2];
+                let futs: Vec<std::pin::Pin<Box<dyn std::future::Future<Output = ()>>>> = rest
+                    .bytes()
+                    .enumerate()
+                    .map(|(i, c)| -> std::pin::Pin<Box<dyn std::future::Future<Output = ()>>> {
+                        let h = hs[(k + i) % 2];
+                        if c == b'P' { Box::pin(h.pause()) } else { Box::pin(h.resume()) }
+                    })
+                    .collect();
+                for f in futs {
+                    if block_on(f).is_none() {
+                        note = "!pause-or-resume-not-acknowledged".into();
+                    }
+                }
+            }
             b'+' => std::thread::sleep(Duration::from_millis(rest.parse().unwrap())),
             b'H' => {
                 // graceful stop (last op) with the connections held open THROUGH shutdown_timeout (2 s, set by the builder
